@@ -46,6 +46,12 @@ def frameErrorsWith (A : CoreArgs) (T : ScopeTable) (d : Depth) (S : Schema) (D 
   ++ (S.columns.map (fun c => columnErrors T d c (pick A.components D sample))).flatten
   ++ indexPartErrors T d S (pick A.components D sample)
 
+/-- the same with the dataframe-level checks of the schema: user functions of the object they are handed, here an
+arbitrary function `fc` from frames to errors; `fcArg` says which object `run_checks` receives -/
+def frameErrorsWithChecks (A : CoreArgs) (fcArg : Arg) (fc : Frame → List Err) (T : ScopeTable) (d : Depth) (S : Schema)
+    (D : Frame) (ps : List Nat) : List Err :=
+  frameErrorsWith A T d S D ps ++ fc (pick fcArg D (D.take ps))
+
 /-- who gets what among the core checks of a field (SeriesSchema, Index, polars Column) -/
 structure FieldArgs where
   nullable : Arg
